@@ -63,7 +63,8 @@ Definition q_same (q : quant) : bool :=
 (* flag model.  mode of the analysis group that produced the quantity:
      FCausal   causal sources, zero initial state: every regular term carries its step, no condition
      FCond     initial value problem / causality unknown: delay-free regular terms are only claimed
-               for t >= 0 (Piecewise condition), delayed terms carry their step
+               for t >= 0 (Piecewise condition) and carry NO step (nothing is claimed for t < 0, in
+               particular not 0), delayed terms carry their step
      FMixed    superposition of a steady-state (dc / ac, valid for all t) part and a causal transient:
                no condition; terms without step are the steady state                                   *)
 Inductive fmode := FCausal | FCond | FMixed.
@@ -72,6 +73,7 @@ Definition flags_ok (m : fmode) (o : obs) : bool :=
   match m with
   | FCausal => negb (o_cond o) && forallb (fun e => match e with (_, _, _, _, step) => step end) (o_reg o)
   | FCond => Bool.eqb (o_cond o) (has_plain_reg o) && steps_ok (o_cond o) (o_reg o)
+             && forallb (fun e => match e with (T, _, _, _, step) => negb (qc_eqb T 0) || negb step end) (o_reg o)
   | FMixed => negb (o_cond o) && forallb (fun e => match e with (T, _, _, _, step) => step || qc_eqb T 0 end) (o_reg o)
   end.
 (* value claimed for t < 0: None = not claimed (condition t >= 0) *)
